@@ -287,4 +287,85 @@ def u8Run : U8 → Bytes → Option U8
 
 def validUtf8 (b : Bytes) : Bool := u8Run .s0 b == some .s0
 
+/-! ### Go values
+
+The model represents Go's `int` by `Int` and slices by `List`; these are the typing facts of the
+values it stands for (a group number is an `int`, `len` of a slice is an `int`).  They are not
+assumptions about what the matchers compute. -/
+
+structure GoTyped (nameTable : List (Bytes × Int)) (indices : List Int) : Prop where
+  idx : ∀ p ∈ nameTable, minInt64 ≤ p.2 ∧ p.2 ≤ maxInt64
+  len : (indices.length : Int) ≤ maxInt64
+
+/-! ### numbers as rationals -/
+
+/-- `m × 10^e` as a rational number -/
+def ratOf (m e : Int) : Rat := (m : Rat) * (10 : Rat) ^ e
+
+/-- the number a JSON value denotes -/
+def JVal.toRat : JVal → Option Rat
+  | .num m e => some (ratOf m e)
+  | _ => none
+
+/-- A capture read as a plain decimal numeral `digits` or `digits.digits`, as a rational:
+integer part plus fraction digits over the power of ten (leading zeros allowed – this is the reading
+of the *capture*).  Written without reference to mantissa/exponent pairs. -/
+def decimalRat (s : Bytes) : Option Rat :=
+  let ip := (s.span isDig).1
+  if ip = [] then none
+  else
+    match (s.span isDig).2 with
+    | [] => some (digVal ip : Rat)
+    | c :: fp =>
+      if c = 0x2e ∧ fp ≠ [] ∧ fp.all isDig then some ((digVal ip : Rat) + (digVal fp : Rat) / (10 : Rat) ^ fp.length)
+      else none
+
+/-! ### boolean words -/
+
+/-- all spellings of an ASCII lower-case word with each letter in either ASCII case -/
+def spellings : Bytes → List Bytes
+  | [] => [[]]
+  | c :: r => (spellings r).flatMap fun t => [c :: t, (c - 32) :: t]
+
+/-! ### Which members each key selects -/
+
+/-- `(named, numbered)` for the special keys of `GetKey`; `none` = not a JSON view -/
+def viewFlags (key : Bytes) : Option (Bool × Bool) :=
+  if key = [0x2e] then some (true, false)
+  else if key = [0x23] then some (false, true)
+  else if key = [0x2e, 0x23] ∨ key = [0x23, 0x2e] then some (true, true)
+  else none
+
+/-- byte-wise lexicographic `≤` (Go string comparison) -/
+def bytesLe : Bytes → Bytes → Bool
+  | [], _ => true
+  | _ :: _, [] => false
+  | a :: as, b :: bs => a < b || (a == b && bytesLe as bs)
+
+/-! ### U+FFFD substitution
+
+What `encoding/json`, Go's `range` over a string, and the WHATWG decoder do with ill-formed UTF-8:
+every byte that does not start a well-formed sequence is replaced by U+FFFD (`EF BF BD`), one per
+byte (`utf8.DecodeRune` returns `(RuneError, 1)`), well-formed sequences are kept.  As a machine over
+the DFA above: `pend` holds the bytes of the sequence being read in state `st`. -/
+
+def fffd : Bytes := [0xEF, 0xBF, 0xBD]
+
+def fffds (pend : Bytes) : Bytes := pend.flatMap fun _ => fffd
+
+def san : U8 → Bytes → Bytes → Bytes
+  | _, pend, [] => fffds pend
+  | st, pend, c :: r =>
+    match u8Step st c with
+    | some st' => if st' = .s0 then pend ++ c :: san .s0 [] r else san st' (pend ++ [c]) r
+    | none =>
+      -- the sequence is broken: one U+FFFD per pending byte, then `c` is read afresh
+      fffds pend ++
+        (if pend = [] then fffd ++ san .s0 [] r
+         else match u8Step .s0 c with
+          | some st' => if st' = .s0 then c :: san .s0 [] r else san st' [c] r
+          | none => fffd ++ san .s0 [] r)
+
+def sanitize (b : Bytes) : Bytes := san .s0 [] b
+
 end Rare.C16
